@@ -330,6 +330,23 @@ impl futures::io::AsyncSeek for AShared {
 // than asked for (C13); serving the archive checks through such readers makes every property's check sensitive to
 // code that relies on a single read()/write() call transferring everything.
 // ---------------------------------------------------------------------------------------------
+thread_local! {
+    /// when n > 0: the n-th next read call of a fragmenting reader on this thread fails (once)
+    static FRAG_FAIL: std::cell::Cell<u32> = std::cell::Cell::new(0);
+}
+pub fn frag_fail_next(n: u32) {
+    FRAG_FAIL.with(|c| c.set(n));
+}
+fn frag_fault() -> bool {
+    FRAG_FAIL.with(|c| {
+        let n = c.get();
+        if n == 0 {
+            return false;
+        }
+        c.set(n - 1);
+        n == 1
+    })
+}
 const FRAG_CYCLE: [usize; 7] = [3, 4096, 1, 100_000, 7, 65_536, 50];
 pub struct Frag {
     cur: std::io::Cursor<Vec<u8>>,
@@ -342,6 +359,9 @@ impl Frag {
 }
 impl io::Read for Frag {
     fn read(&mut self, buf: &mut [u8]) -> io::Result<usize> {
+        if frag_fault() {
+            return Err(io::Error::new(io::ErrorKind::Other, "injected transient fault"));
+        }
         let k = FRAG_CYCLE[self.calls % FRAG_CYCLE.len()];
         self.calls += 1;
         let n = buf.len().min(k);
@@ -365,6 +385,9 @@ impl AFrag {
 impl futures::io::AsyncRead for AFrag {
     fn poll_read(self: std::pin::Pin<&mut Self>, cx: &mut std::task::Context<'_>, buf: &mut [u8]) -> std::task::Poll<io::Result<usize>> {
         let this = self.get_mut();
+        if frag_fault() {
+            return std::task::Poll::Ready(Err(io::Error::new(io::ErrorKind::Other, "injected transient fault")));
+        }
         let k = FRAG_CYCLE[this.calls % FRAG_CYCLE.len()];
         this.calls += 1;
         let n = buf.len().min(k);
